@@ -1,7 +1,8 @@
 #!/bin/bash
 # Build the framework from files on disk only (offline). Regenerates the tables from /repo first.
 cd "$(dirname "$(readlink -f "$0")")" || exit 2
-export PYTHONPATH="$PWD" PYTHONHASHSEED=0
+export FV_REPO="${FV_REPO:-/repo}"
+export PYTHONPATH="$PWD:$FV_REPO" PYTHONHASHSEED=0
 /venv/bin/python -W ignore -m harness.translate 2>&1 | grep -v conda
 cd lean && lake build FormulaicVerif 2>&1 | tail -5
 for f in FormulaicVerif/Props/C*.lean; do
